@@ -107,6 +107,29 @@ def run(check, pool, Task, with_wrappers=True):
         for o in [o for o in check.obligations if str(o['status']).startswith(('candidate-', 'unsat-not-established'))]:
             if not found:
                 check.inconc(f"{o['name']}: {o['status']} and the exact witness search found no reproducible counterexample")
+    # float32 points against float32 shapes: float32-typed differences and products are rounded (values.F32, DESIGN 10.2)
+    ftasks = [Task(f'kernel:float32 points and float32 {kind} of {st} vertices (float32-typed operations)#{sd}', c02.q_f32, (kind, st), {'timeout': 300, 'seed': check.seed + sd, 'solve': False},
+                   timeout=400, group=f'f32:{kind}:{st}', meta={'kind': kind, 'st': st, 'noretry': True})
+              for kind, st in (('line', 2), ('line', 3), ('polygon', 3), ('polygon', 4)) for sd in range(2)]
+    check.bounds['float32'] = ('float32 points and float32 shape buffers, integer coordinates |c| <= 2^14 (products of differences exceed 2^24), sums, differences and '
+                               'products of float32-typed values rounded to float32; a structure passes when its symbolic run has no float32-typed operation')
+    fres = pool(ftasks)
+    for grp in sorted({t.group for t in ftasks}):
+        t = next(t for t in ftasks if t.group == grp)
+        r = fres.get(grp, {'status': 'error', 'detail': 'no result'})
+        nm = t.name.rsplit('#', 1)[0]
+        if r['status'] == 'sat':
+            try:
+                bad, wit = c02.replay_f32(t.meta['kind'], t.meta['st'], r['model'])
+            except Exception as e:  # noqa: BLE001
+                bad, wit = False, {'exception': repr(e)}
+            if bad:
+                v = check.violation(f"C02:float32:{t.meta['kind']}", f"float32 point {wit['point']} against float32 {wit['kind']} {wit['shape']}: intersects={wit['got']} but the exact answer is {wit['expected']}", wit)
+                check.record(nm, dict(r, status='known-finding' if v == 'known' else 'violated'), 'kernel', t.meta)
+            else:
+                check.record(nm, dict(r, status='inconclusive', detail=f'float32 counterexample did not reproduce: {str(wit)[:300]}'), 'kernel', t.meta)
+        else:
+            check.record(nm, dict(r, status='inconclusive' if r['status'] == 'unknown' else r['status']), 'kernel', t.meta)
     if with_wrappers:
         try:
             from . import wrappers
